@@ -27,6 +27,7 @@ import common  # noqa: E402
 import gen_c03  # noqa: E402
 import gen_c19  # noqa: E402
 import translate  # noqa: E402
+from props import c03 as c03mod  # noqa: E402
 
 K_ITEMSIZE0 = "c19:itemsize-zero-dtype"
 K_NEG = "c19:memmap-negative-stride-view"
@@ -305,6 +306,71 @@ def judge_reduce(c, r, rng):
     return problems[0], None
 
 
+def gen_routes(rng, n):
+    """arrays around the auto-memmapping threshold, object arrays, memmap-backed arrays and views"""
+    cases = []
+    for _ in range(n):
+        k = rng.randrange(6)
+        if k == 0:
+            arr = {"dtype": "O", "shape": [rng.choice([3, 40])], "layout": "C"}
+        elif k == 1:
+            arr = {"reduce": True, "dtype": "<i8", "shape": [4, 3], "order": rng.choice(["C", "F"]),
+                   "ops": rng.choice([[["T"]], [["slice", [[1, 3, None], [None, None, None]]]], [["slice", [[None, None, 2], [None, None, None]]]]])}
+        elif k == 2:
+            arr = {"dtype": rng.choice(["<i8", "<f4"]), "shape": [rng.choice([2, 13])], "layout": "memmap"}
+        else:
+            arr = {"dtype": rng.choice(["<f8", ">i4", "u1", [["a", "<i4"], ["b", ">f8"]]]), "shape": rng.choice([[12], [13], [3, 4], [0], []]),
+                   "layout": rng.choice(["C", "F", "strided", "T"])}
+        nb = 96
+        cases.append({"mode": "route", "seed": rng.randrange(10 ** 9), "array": arr,
+                      "max_nbytes": rng.choice([None, 0, 1, 7, 8, 11, 12, 47, 48, 95, 96, 97, 103, 104, 105, 10 ** 6])})
+    return cases
+
+
+def judge_route(c, r):
+    if "harness_error" in r:
+        return "harness error " + r["harness_error"] + r.get("tb", "")
+    if not r["forward_ok"]:
+        return "the array rebuilt from the forward reduction differs from the array"
+    thr = c["max_nbytes"]
+    if r["has_backing"]:
+        want = "reduce_backed"
+    elif (not r["hasobject"]) and thr is not None and r["nbytes"] > thr:
+        want = "dump_temp"
+    else:
+        want = "pickle"
+    if r["forward"] != want:
+        return "array of %d bytes (object=%s, memmap-backed=%s) with max_nbytes=%s took the route %s, documented %s" % (
+            r["nbytes"], r["hasobject"], r["has_backing"], thr, r["forward"], want)
+    want_back = "reduce_backed" if r["forward"] == "reduce_backed" else "pickle"
+    if r["backward"] != want_back:
+        return "on the way back the array took the route %s, documented %s" % (r["backward"], want_back)
+    return None
+
+
+def model_routes(ctx, routes, route_res):
+    exprs, idx = [], []
+    for i, (c, r) in enumerate(zip(routes, route_res)):
+        if "forward" not in r:
+            continue
+        thr = c["max_nbytes"]
+        exprs.append("(route_code (forward_route %s %s %s %d), route_code (Ok (backward_route %s %s)))" % (
+            "true" if r["has_backing"] else "false", "true" if r["hasobject"] else "false",
+            "None" if thr is None else "(Some %d)" % thr, r["nbytes"],
+            "true" if r["forward_memmap"] else "false", "true" if r["backward_is_joblib_temp"] else "false"))
+        idx.append(i)
+    vals = ctx.coq_eval_lines(REQ, DEFS, exprs, name="c19_routes", shard=300)
+    names = {0: "reduce_backed", 1: "dump_temp", 2: "pickle", 9: "raise"}
+    dis = []
+    for i, v in zip(idx, vals):
+        fw, bw = parse_coq(v)
+        r = route_res[i]
+        if names[fw] != r["forward"] or names[bw] != r["backward"]:
+            dis.append({"function": "ArrayMemmapForwardReducer.__call__ / reduce_array_memmap_backward", "case": routes[i],
+                        "model": [names[fw], names[bw]], "impl": [r["forward"], r["backward"]]})
+    return dis, len(vals)
+
+
 def judge_loky(c, r):
     if "harness_error" in r:
         return "harness error " + r["harness_error"] + r.get("tb", "")
@@ -329,6 +395,10 @@ Definition showL (r : result (list Z)) : Z * list Z := match r with Ok l => (0, 
 Definition showC (r : result (list (Z * Z * Z))) : Z * list (Z * Z * Z) :=
   match r with Ok l => (0, l) | Raise ZeroDivisionError => (1, []) | Raise _ => (2, []) end.
 Definition ord_code (o : order) : Z := match o with OrdC => 0 | OrdF => 1 end.
+Definition type_code (t : arrtype) : Z := match t with TNdarray => 0 | TMatrix => 1 | TMemmap => 2 | TSubclass => 3 end.
+Definition payload_code (p : payload) : Z := match p with PRaw => 0 | PPickle2 => 1 end.
+Definition route_code (r : result route) : Z :=
+  match r with Ok RReduceBacked => 0 | Ok RDumpTemp => 1 | Ok RPickle => 2 | Raise _ => 9 end.
 Definition file_of (pos : Z) (head : list Z) : list Z := repeat 0 (Z.to_nat pos) ++ head.
 Definition show_write (pos : Z) (head : list Z) :=
   (showZ (writer_padding A pos), pad_model A pos, showL (header_bytes A pos),
@@ -403,12 +473,27 @@ def model_compare(ctx, arr_cases, arr_res, red_cases, red_res, k):
         if not r.get("has_backing"):
             continue
         v, b = r["view"], r["backing"]
-        exprs.append("show_red (reduce_memmap {| v_ptr := %d; v_shape := %s; v_strides := %s; v_isz := %d; v_c := %s; v_f := %s |} "
-                     "{| m_start := 1000; m_offset := %d; m_f := %s |})" % (
-                         1000 + v["ptr"], zl(v["shape"]), zl(v["strides"]), v["itemsize"],
-                         "true" if v["c"] else "false", "true" if v["f"] else "false", b["offset"],
-                         "true" if b["f"] else "false"))
+        vw = "{| v_ptr := %d; v_shape := %s; v_strides := %s; v_isz := %d; v_c := %s; v_f := %s |}" % (
+            1000 + v["ptr"], zl(v["shape"]), zl(v["strides"]), v["itemsize"],
+            "true" if v["c"] else "false", "true" if v["f"] else "false")
+        bk = "{| m_start := 1000; m_offset := %d; m_f := %s |}" % (b["offset"], "true" if b["f"] else "false")
+        # translated source, hand model, numpy's contiguity flags recomputed from shape/strides
+        exprs.append("(show_red (reduce_memmap %s %s), show_red (reduce_memmap_hand %s %s), "
+                     "(np_c_contig %s %s %d, np_f_contig %s %s %d))" % (
+                         vw, bk, vw, bk, zl(v["shape"]), zl(v["strides"]), v["itemsize"],
+                         zl(v["shape"]), zl(v["strides"]), v["itemsize"]))
         meta.append(("reduce", ci, 0))
+    type_codes = {"ndarray": "TNdarray", "matrix": "TMatrix", "memmap": "TMemmap", "MyArr": "TSubclass"}
+    for ci, (c, r) in enumerate(zip(arr_cases, arr_res)):
+        g = r.get("geom")
+        if not g or "loaded_type" not in r or g["type"] not in type_codes:
+            continue
+        via = bool(c.get("mmap_mode")) and not r.get("compressed") and c["target"] in ("path", "raw") \
+            and c.get("load_via", "path") == "path" and not g["hasobject"] and g["type"] != "MyArr"
+        exprs.append("(type_code (loaded_type %s numpy_has_array_prepare %s), save_intercepts %s, "
+                     "payload_code (payload_kind %s))" % (type_codes[g["type"]], "true" if via else "false",
+                                                          type_codes[g["type"]], "true" if g["hasobject"] else "false"))
+        meta.append(("type", ci, via))
     vals = ctx.coq_eval_lines(REQ, DEFS, exprs, name="c19_cases", shard=250)
     for (kind, ci, wi), v in zip(meta, vals):
         t = parse_coq(v)
@@ -459,15 +544,41 @@ def model_compare(ctx, arr_cases, arr_res, red_cases, red_res, k):
             if tag != 0 or sizes != impl_sizes or (not r.get("compressed") and want_pos != impl_pos):
                 dis.append({"function": "read_array chunk loop", "case": arr_cases[ci],
                             "model": [tag, sizes[:6]], "impl": rd["reads"][:6]})
+        elif kind == "type":
+            r = arr_res[ci]
+            g = r["geom"]
+            tcode, intercepts, pcode = t
+            names = {0: "ndarray", 1: "matrix", 2: "memmap", 3: "MyArr"}
+            want = names[tcode] if intercepts else g["type"]       # not intercepted: numpy's own pickling keeps the type
+            heads = r.get("object_payload_heads", [])
+            n_arr_writes = len([w for w in r.get("writes", [])])
+            ok = r["loaded_type"] == want
+            if intercepts and g["hasobject"]:
+                ok = ok and pcode == 1
+                if not r.get("compressed"):      # the file bytes at the recorded positions: a protocol-2 pickle, no padding
+                    ok = ok and all(h == "8002" for h in heads) and len(heads) == n_arr_writes
+            if intercepts and not g["hasobject"]:
+                ok = ok and pcode == 0 and not heads
+            if not intercepts:
+                ok = ok and n_arr_writes == 0
+            if not ok:
+                dis.append({"function": "NumpyPickler.save / NumpyArrayWrapper.read type and payload routes", "case": arr_cases[ci],
+                            "model": {"loaded_type": want, "intercepted": intercepts, "pickled_payload": pcode == 1},
+                            "impl": {"loaded_type": r["loaded_type"], "object_payload_heads": heads, "writes": n_arr_writes}})
         else:
             r = red_res[ci]
             a = r["args"]
-            tag, (off, oc, st, tot) = t if len(t) == 2 else (t[0], t[1:])
-            impl = (a["offset"], 1 if a["order"] == "F" else 0, [-7] if a["strides"] is None else a["strides"],
-                    -7 if a["total"] is None else a["total"])
-            if tag != 0 or (off, oc, st, tot) != impl:
-                dis.append({"function": "_reduce_memmap_backed", "case": red_cases[ci], "model": [tag, off, oc, st, tot],
-                            "impl": a})
+            f = flat(t)
+            # f = [tag, off, ord, strides(list), total] * 2 + [c, f]
+            tr_, hand, flags = f[0:5], f[5:10], f[10:12]
+            impl = [0, a["offset"], 1 if a["order"] == "F" else 0, [-7] if a["strides"] is None else a["strides"],
+                    -7 if a["total"] is None else a["total"]]
+            if tr_ != impl or hand != impl:
+                dis.append({"function": "_reduce_memmap_backed", "case": red_cases[ci],
+                            "model": {"translated": tr_, "hand": hand}, "impl": a})
+            if flags != [r["view"]["c"], r["view"]["f"]]:
+                dis.append({"function": "numpy contiguity flags (np_c_contig / np_f_contig)", "case": red_cases[ci],
+                            "model": flags, "impl": [r["view"]["c"], r["view"]["f"]]})
     return dis, len(vals)
 
 
@@ -495,6 +606,11 @@ def search_failing(ctx, k, n=300):
         bad = judge_reduce(c, r, rng)
         if bad and bad[1] is None:
             return bad[0], c
+    routes = gen_routes(rng, n)
+    for c, r in zip(routes, run_parallel(routes)):
+        bad = judge_route(c, r)
+        if bad:
+            return bad, c
     return None
 
 
@@ -530,8 +646,13 @@ def run(ctx):
         arr = [json.loads(l) for l in open(corpus_path) if l.strip()] + arr
     red = gen_reduce(rng, 160 if quick else 2000)
     lok = gen_loky(rng, quick)
+    routes = gen_routes(rng, 60 if quick else 600)
+    mat = [{"mode": "loadmatrix", "payload": pk, "form": f} for pk in ("array", "object")
+           for f in (0, 3, "gzip", "bz2", "lzma", "xz")]
     arr_res = run_parallel(arr)
     red_res = run_parallel(red)
+    route_res = run_parallel(routes)
+    mat_res = run_parallel(mat, workers=6)
     with cf.ThreadPoolExecutor(3) as ex:
         lok_res = list(ex.map(lambda c: run_impl_cases([c])[0], lok))
     oracle_fail, known_hits = [], {}
@@ -567,10 +688,26 @@ def run(ctx):
         bad = judge_loky(c, r)
         if bad:
             oracle_fail.append((bad, c, r, None))
+    route_dist = {}
+    for c, r in zip(routes, route_res):
+        bad = judge_route(c, r)
+        if bad:
+            oracle_fail.append((bad, c, r, None))
+        route_dist[r.get("forward")] = route_dist.get(r.get("forward"), 0) + 1
     # model
     disagreements, n_model = [], 0
     if os.path.exists(os.path.join(common.COQ, "Model", "ArrayLayout.vo")):
         disagreements, n_model = model_compare(ctx, arr, arr_res, red, red_res, k)
+        d2, n2 = model_routes(ctx, routes, route_res)
+        disagreements.extend(d2)
+        n_model += n2
+        for pk in ("array", "object"):
+            sub = [(c, r) for c, r in zip(mat, mat_res) if c["payload"] == pk]
+            lf, ld, ln = c03mod.load_matrix_check(ctx, [c for c, _ in sub], [r for _, r in sub], k, pk)
+            for what, c, x in lf:
+                oracle_fail.append((what, c, x, None))
+            disagreements.extend(ld)
+            n_model += ln
     # known findings: replay the witnesses of the _refuted theorems
     kc = known_cases()
     kres = run_impl_cases([c for _, c in kc])
@@ -612,7 +749,9 @@ def run(ctx):
                            "correspondence": "Gen/C19_Padding.v + Model/ArrayLayout.v vs NumpyArrayWrapper / _reduce_memmap_backed"},
                           found_input=False)
     ctx.finish({
-        "evaluations": len(arr) + len(red) + len(lok) + len(kc),
+        "evaluations": len(arr) + len(red) + len(lok) + len(kc) + len(routes) + 75 * len(mat),
+        "load_dispatch_combinations": 75 * len(mat),
+        "reducer_routes": route_dist,
         "distinct_nontrivial": len(nontrivial),
         "rule": "arrays: dtype (%d kinds incl. structured/nested/aligned/object/datetime/both endiannesses) x shape (0-d, "
                 "empty, 1..4-d) x layout (C, F, transposed, strided, negative stride, broadcast, matrix, ndarray subclass, "
@@ -656,6 +795,15 @@ def replay(ctx, path):
         bad = judge_array(c, r, k["alignment"])
     elif c["mode"] == "reduce":
         bad = judge_reduce(c, r, ctx.rng)
+    elif c["mode"] == "route":
+        b = judge_route(c, r)
+        bad = (b, None) if b else None
+    elif c["mode"] == "loadmatrix":
+        fails, _, _ = c03mod.load_matrix_check(ctx, [c], [r], k, c["payload"])
+        only = c.get("only")
+        fails = [f for f in fails if not only or all(f[2].get(kk) == vv for kk, vv in only.items())]
+        bad = (fails[0][0], None) if fails else None
+        r = {"n": len(r["res"])}
     else:
         b = judge_loky(c, r)
         bad = (b, None) if b else None
